@@ -93,6 +93,10 @@ def gen_cases(rng, tier):
                 c['then_edit'] = [rng.pick(['source', 'copy']), rng.pick(droppable)]
         elif k == 'delete':
             c['selected'] = [x for x in names if rng.chance(0.4)]
+            if rng.chance(0.4):
+                # the selector given as a position, counted from either end
+                c['idx'] = rng.randint(-len(names), len(names) - 1)
+                c['selected'] = [names[c['idx']]]
         else:
             c['how'] = rng.pick(['iterable', 'load_tuple', 'load_tuple_lists', 'sources', 'load_dp'])
             c['new'] = gen_pkg(rng, nres=rng.randint(1, 2))
@@ -144,7 +148,7 @@ def steps_of(case):
             st.append(DF.delete_fields([case['then_edit'][1]], resources=[edited_after_dup(case)], regex=False))
         return st
     if k == 'delete':
-        return [DF.delete_resource(case['selected'])]
+        return [DF.delete_resource(case['idx'] if 'idx' in case else case['selected'])]
     new = src_resources(case['new'])
     how = case['how']
     if how == 'iterable':
